@@ -324,7 +324,7 @@ func (c *Check) mergedMappingAttributes() {
 		return
 	}
 	stored := map[string]bool{}
-	for _, b := range mm.Blocks {
+	for _, b := range helperBlocks(mm, 2) {
 		for _, ins := range b.Instrs {
 			st, ok := ins.(*ssa.Store)
 			if !ok {
